@@ -422,24 +422,35 @@ quantizer_search_harness!(quantizer_search_i8, i8, 40);
 /// (to_generic_decoder_model, to_generic_lookup_decoder_model, to_generic_encoder_model) assign
 /// every quantile / symbol the same triple as the original.
 macro_rules! generic_conversion_harness {
-    ($name:ident, $P:expr) => {
+    ($name:ident, $ename:ident, $P:expr) => {
+        /// C05 (bounded: 2-symbol tables): to_generic_decoder_model assigns every quantile the same
+        /// triple as the original model.
         #[cfg_attr(kani, kani::proof)]
         #[cfg_attr(kani, kani::unwind(8))]
         pub fn $name() {
             const P: usize = $P;
             let a: u8 = any(); assume(a >= 1 && (a as u32) < (1u32 << P));
-            let m = match ContiguousCategoricalEntropyModel::<u8, Vec<u8>, P>::from_nonzero_fixed_point_probabilities(&[a], true) { Ok(m) => m, Err(()) => return };
+            let m = match ContiguousCategoricalEntropyModel::<u8, Vec<u8>, P>::from_nonzero_fixed_point_probabilities(&[a], true) { Ok(m) => m, Err(()) => { assert!(false, "C19: valid 2-symbol table refused"); return; } };
             let d = m.to_generic_decoder_model();
             let q: u8 = any(); assume((q as u32) < (1u32 << P));
             assert!(d.quantile_function(q) == m.quantile_function(q), "C05: to_generic_decoder_model differs from the original model");
+        }
+        /// C05 (bounded: 2-symbol tables): to_generic_encoder_model (hash table) assigns every symbol
+        /// the same entry as the original model.
+        #[cfg_attr(kani, kani::proof)]
+        #[cfg_attr(kani, kani::unwind(8))]
+        pub fn $ename() {
+            const P: usize = $P;
+            let a: u8 = any(); assume(a >= 1 && (a as u32) < (1u32 << P));
+            let m = match ContiguousCategoricalEntropyModel::<u8, Vec<u8>, P>::from_nonzero_fixed_point_probabilities(&[a], true) { Ok(m) => m, Err(()) => return };
             let e = m.to_generic_encoder_model();
             let s: usize = any();
             assert!(e.left_cumulative_and_probability(s) == m.left_cumulative_and_probability(s), "C05: to_generic_encoder_model differs from the original model");
         }
     };
 }
-generic_conversion_harness!(generic_conversions_p8, 8);
-generic_conversion_harness!(generic_conversions_p5, 5);
+generic_conversion_harness!(generic_decoder_p8, generic_encoder_p8, 8);
+generic_conversion_harness!(generic_decoder_p5, generic_encoder_p5, 5);
 
 /// C05/C03 (bounded: 3 entries drawn from {0, 0.5, 1, 3}): lazy model == eager model for every
 /// symbol and quantile, including tables with leading / trailing zero entries.
@@ -574,3 +585,30 @@ pub fn fast_f32_n2_u32_p24() {
         assert!(c0 == 0 && p0.get() >= 1 && c1 == p0.get() && p1.get() >= 1 && (c1 as u64) + (p1.get() as u64) == (1u64 << P), "C03: float table at the default preset's widths is not a valid model");
     }
 }
+
+macro_rules! quantizer_search_small {
+    ($name:ident, $Sym:ty, $unw:expr) => {
+        /// C03/C10/C20 (bounded: supports of <= 8 symbols placed ANYWHERE in the symbol type, incl. at
+        /// its minimum / maximum; step-shaped CDFs): quantile_function of a quantised model for every
+        /// step threshold, EVERY inverse hint (right or wrong) and every quantile: terminates, returns
+        /// a symbol of the support whose interval holds the quantile, agrees with the encoder view.
+        #[cfg_attr(kani, kani::proof)]
+        #[cfg_attr(kani, kani::unwind($unw))]
+        pub fn $name() {
+            let lo: $Sym = any(); let len: u8 = any();
+            assume(len >= 1 && len <= 7 && (lo as i32 + len as i32) <= <$Sym>::MAX as i32);
+            let hi: $Sym = (lo as i32 + len as i32) as $Sym;
+            let t: i16 = any(); let hint: i16 = any();
+            let m = LeakyQuantizer::<f64, $Sym, u8, 8>::new(lo..=hi).quantize(StepCdf { t: t as f64, hint: hint as f64 });
+            let q: u8 = any();
+            let (s, c, p) = m.quantile_function(q);
+            assert!(s >= lo && s <= hi, "C10/C03: quantised model decoded a symbol outside its support");
+            assert!(c <= q && (q as u32) < c as u32 + p.get() as u32, "C03: quantile not inside the interval returned by the quantised model");
+            assert!(m.left_cumulative_and_probability(s) == Some((c, p)), "C03: quantised quantile_function disagrees with the encoder view");
+            cover!(hi == <$Sym>::MAX, "support touches the maximum of the symbol type");
+            cover!(lo == <$Sym>::MIN, "support touches the minimum of the symbol type");
+        }
+    };
+}
+quantizer_search_small!(quantizer_search_small_u8, u8, 14);
+quantizer_search_small!(quantizer_search_small_i8, i8, 14);
